@@ -27,8 +27,8 @@ Proof.
   match goal with |- context [plan ?pc ?root ss] => destruct (plan pc root ss) as [steps|] end.
   2:{ intros H _; inversion H; subst; cbn; discriminate. }
   match goal with |- context [fold_left ?F steps ?I] => destruct (fold_left F steps I) as [a|] end.
-  2:{ intros H _; inversion H; subst; cbn; discriminate. }
-  destruct (Nat.ltb max (a_count a)); [intros H _; inversion H; subst; cbn; discriminate|].
+  2:{ intros H _; inversion H; subst; cbn. intros E. apply app_eq_nil in E. destruct E as [_ E]. discriminate. }
+  destruct (Nat.ltb max (a_count a)); [intros H _; inversion H; subst; cbn; intros E; apply app_eq_nil in E; destruct E as [_ E]; discriminate|].
   match goal with |- context [merge_results ?R] => destruct (merge_results R) as [merged|] end.
   2:{ intros H _; inversion H; subst; cbn. intros E. apply app_eq_nil in E. destruct E as [_ E]. discriminate. }
   match goal with |- context [bubble ?f ?c ?cur ?s ?m ?p] => destruct (bubble f c cur s m p) end;
